@@ -5,10 +5,10 @@ from . import text_bounded
 ID = "C19"
 LEVEL = "other"
 MODES = ["gregorian"]
-FUNCS = [("data:TimePoint.__sub__", r"^tp:(cal-hms/cal-hms|ord-hm/week-h)$"), ("data:TimePoint._cmp", r"^lt:(cal-hms/cal-hms|ord-hm/week-h)$")]
+FUNCS = ["datetimeoper:DateTimeOperator.date_diff", ("data:TimePoint.__sub__", r"^tp:(cal-hms/cal-hms|ord-hm/week-h)$"), ("data:TimePoint._cmp", r"^lt:(cal-hms/cal-hms|ord-hm/week-h)$")]
 LEMMAS = CAL_LEMMAS
 CANARIES = ["canary.week52"]
-EXPLANATION = ("PROVED: the library operations the CLI prints (comparison and difference of two points; shifting is C01/C05). BOUNDED (whole-program I/O through argparse and stdout is outside any contract in reach): main(argv) stdout / exit status against the library calls for date-times in 9 notations x 0..3 offsets x 5 calendar selections, pairs with --as-total, recurrences with --max, --utc/--ref/environment, and malformed arguments in every positional slot (never a traceback).")
+EXPLANATION = ("PROVED: DateTimeOperator.date_diff returns (d, sign) with len(d) >= 0 and first +- d == second for every pair of points; the comparison and difference operations it uses (shifting is C01/C05). BOUNDED (whole-program I/O through argparse and stdout is outside any contract in reach): main(argv) stdout / exit status against the library calls for date-times in 9 notations x 0..3 offsets x 5 calendar selections, pairs with --as-total, recurrences with --max, --utc/--ref/environment, and malformed arguments in every positional slot (never a traceback).")
 ASSUMPTIONS = ["argparse, stdout, stdin, now, datetime fallbacks are external"]
 LEVEL_TEXT = "Library operations: proof; CLI plumbing: bounded grid. Hence other."
 LEVEL_NOTE = "see DESIGN section 5/C19"
